@@ -4,11 +4,11 @@
   invariant under `SameRawQuals`; the hand-written mirror agrees with the reference stream.
 -/
 import BioCantor.Model.Digest
-import BioCantor.Proofs.QualSets
+import BioCantor.Proofs.DigStr
 namespace BioCantor.Proofs.Dig
 open BioCantor BioCantor.Spec.Digest BioCantor.Model.Digest
 open BioCantor.Spec.Qual (Str strLt strLe)
-open BioCantor.Proofs.Qual (strLe_trans strLe_total strLe_antisymm strLe_iff strLt_irrefl strLt_trans)
+open BioCantor.Proofs.DigStr (strLe_trans strLe_total strLe_antisymm strLe_iff strLt_irrefl strLt_trans)
 
 /-! ### `sorted` of strings -/
 
@@ -197,7 +197,7 @@ theorem strSet_mem (vals : List PyVal) (x : Str) : x ∈ strSet vals ↔ x ∈ v
   unfold strSet; rw [dedupSorted_mem]; exact (sortStrs_perm_self _).mem_iff
 
 theorem strSet_ext {a b : List PyVal} (h : ∀ x, x ∈ a.map pyStr ↔ x ∈ b.map pyStr) : strSet a = strSet b :=
-  BioCantor.Proofs.Qual.strict_ext (strSet_strict a) (strSet_strict b)
+  BioCantor.Proofs.DigStr.strict_ext (strSet_strict a) (strSet_strict b)
     (fun x => by rw [strSet_mem, strSet_mem, h])
 
 /-- a strictly ascending list is what `sorted` returns for it, and what the set builder keeps of it -/
